@@ -93,7 +93,14 @@ static void check_env(int opt, int spelling, const char* value, int junk_before,
 static void gen_wellformed(char* out, int size_opt) {
   unsigned k = (unsigned)rndn(10);
   if (k == 0) { static const char* b[] = { "1", "true", "TRUE", "Yes", "on", "0", "false", "No", "OFF", "oN" }; strcpy(out, b[rndn(10)]); return; }
-  char digits[40]; size_t nd = (k < 7 ? 1 + rndn(4) : (k < 9 ? 9 + rndn(11) : 19 + rndn(6))); for (size_t i = 0; i < nd; i++) digits[i] = (char)('0' + (i == 0 && nd > 1 ? 1 + rndn(9) : rndn(10))); digits[nd] = 0;
+  char digits[40];
+  if (k >= 5 && k <= 6) {   // boundary values: multiples of large powers of two (+ a small remainder), so that a unit multiplication wraps around to a small number
+    uint64_t v = ((uint64_t)(1 + rndn(9)) << (30 + rndn(34))) + (rndn(3) == 0 ? 0 : rndn(5000)); if (rndn(4) == 0) v = ((uint64_t)1 << (10 * (1 + rndn(6)))) * (1 + rndn(4)) - rndn(2);
+    sprintf(digits, "%" PRIu64, v); const char* sign0 = (rndn(10) == 0 ? "-" : "");
+    if (!size_opt) { sprintf(out, "%s%s", sign0, digits); return; }
+    static const char* u0[] = { "K", "M", "G", "T", "g", "GiB", "MB", "tib" }; sprintf(out, "%s%s%s", sign0, digits, u0[rndn(8)]); return;
+  }
+  size_t nd = (k < 7 ? 1 + rndn(4) : (k < 9 ? 9 + rndn(11) : 19 + rndn(6))); for (size_t i = 0; i < nd; i++) digits[i] = (char)('0' + (i == 0 && nd > 1 ? 1 + rndn(9) : rndn(10))); digits[nd] = 0;
   const char* sign = (rndn(6) == 0 ? "-" : rndn(8) == 0 ? "+" : "");
   if (!size_opt || rndn(4) == 0) { sprintf(out, "%s%s", sign, digits); return; }
   static const char* u[] = { "K", "M", "G", "T", "k", "m", "g", "t" }; static const char* s[] = { "", "iB", "B", "ib", "b", "IB" };
